@@ -906,3 +906,4 @@ EXPLANATION += (' Round 6: ' + 'PITFALL/falsy-zero over every function of chord_
 EXPLANATION += (' Round 7: ' + 'VOCAB/modifications-by-pattern; VOCAB/accidentals-measured.')
 EXPLANATION += (' Rounds 9-10: ' + 'RX/root-takes-its-accidentals (rx.shadowed_alternatives on the regex AST); PITFALL/misaligned-index.')
 EXPLANATION += (' Round 11: ' + 'RX/longest-alternative-first (rx.prefix_shadowed); KEYERR/regex-group-into-table; PITFALL/previous-wraps for filtered counts; SEVENTH read from a returned value.')
+EXPLANATION += (' Round 12: ' + 'TAB/modification-roles; SHAPE/bass-over-all-pitches; PITCHCLASS/wrap-both-ways.')
